@@ -503,8 +503,22 @@ func (g *gen) scalarObj() pdf.Object {
 
 var keyPool = []pdf.Name{"A", "B", "C", "Kids", "Parent", "Type", "Filter", "DecodeParms", "Length", "K#1", "Z z"}
 
+var staleGens = []uint16{0, 1, 65535}
+
+// otherGen sometimes replaces a reference by one to the same object number
+// with a different generation: that is a different, undefined object (null).
+func (g *gen) otherGen(r pdf.Reference) pdf.Reference {
+	if g.intn(8) == 0 {
+		ng := staleGens[g.intn(len(staleGens))]
+		if ng != r.Generation() {
+			return pdf.NewReference(r.Number(), ng)
+		}
+	}
+	return r
+}
+
 func (g *gen) ref() pdf.Object {
-	return g.refs[g.intn(len(g.refs))]
+	return g.otherGen(g.refs[g.intn(len(g.refs))])
 }
 
 // obj generates a direct object; nulls only below the top level
@@ -755,6 +769,7 @@ func encode(filters []pdf.Filter, data []byte) []byte {
 
 type handFile struct {
 	bodies map[uint32]string
+	gens   map[uint32]uint16 // generation of the objects that are not of generation 0
 	next   uint32
 }
 
@@ -776,13 +791,13 @@ func (h *handFile) bytes() []byte {
 	sort.Slice(nums, func(i, j int) bool { return nums[i] < nums[j] })
 	for _, n := range nums {
 		offs[n] = b.Len()
-		fmt.Fprintf(&b, "%d 0 obj\n%s\nendobj\n", n, h.bodies[n])
+		fmt.Fprintf(&b, "%d %d obj\n%s\nendobj\n", n, h.gens[n], h.bodies[n])
 	}
 	x := b.Len()
 	fmt.Fprintf(&b, "xref\n0 %d\n0000000000 65535 f \n", h.next)
 	for n := uint32(1); n < h.next; n++ {
 		if off, ok := offs[n]; ok {
-			fmt.Fprintf(&b, "%010d 00000 n \n", off)
+			fmt.Fprintf(&b, "%010d %05d n \n", off, h.gens[n])
 		} else {
 			b.WriteString("0000000000 00000 f \n")
 		}
@@ -793,11 +808,16 @@ func (h *handFile) bytes() []byte {
 
 // writeByHand returns the file and the references of holder objects that were added
 func writeByHand(g *gen, nodes []*node, longChain int) ([]byte, []pdf.Reference) {
-	h := &handFile{bodies: map[uint32]string{}, next: 3}
+	h := &handFile{bodies: map[uint32]string{}, gens: map[uint32]uint16{}, next: 3}
 	h.bodies[1] = "<< /Type /Catalog /Pages 2 0 R >>"
 	h.bodies[2] = "<< /Type /Pages /Kids [] /Count 0 >>"
 	for i := range nodes {
-		g.refs[i] = pdf.NewReference(h.next, 0)
+		gen := uint16(0)
+		if g.intn(6) == 0 {
+			gen = uint16(1 + g.intn(3)) // a live object of generation > 0; generation 0 of its number is stale
+			h.gens[h.next] = gen
+		}
+		g.refs[i] = pdf.NewReference(h.next, gen)
 		h.next++
 	}
 	for i := range nodes {
@@ -993,7 +1013,7 @@ func runCase(e *common.Env, id string, variant int) {
 	}
 	usedRed := map[pdf.Reference]bool{}
 	for i := 0; i < nred; i++ {
-		r := g.refs[g.intn(len(g.refs))] // never a /Filter or /DecodeParms holder: those are inlined from the source
+		r := g.otherGen(g.refs[g.intn(len(g.refs))]) // never a /Filter or /DecodeParms holder: those are inlined from the source
 		if usedRed[r] {
 			continue
 		}
@@ -1004,12 +1024,12 @@ func runCase(e *common.Env, id string, variant int) {
 		if g.intn(4) == 0 {
 			calls = append(calls, callSpec{kind: 'C', obj: g.obj(0, false)})
 		} else {
-			calls = append(calls, callSpec{kind: 'R', ref: all[g.intn(len(all))]})
+			calls = append(calls, callSpec{kind: 'R', ref: g.otherGen(all[g.intn(len(all))])})
 		}
 	}
 	if variant == 1 && len(calls) > 1 {
 		// a Redirect in the middle of the sequence (may hit an already copied reference)
-		r := g.refs[g.intn(len(g.refs))]
+		r := g.otherGen(g.refs[g.intn(len(g.refs))])
 		if !usedRed[r] {
 			usedRed[r] = true
 			pos := 1 + g.intn(len(calls)-1)
@@ -1378,6 +1398,22 @@ func execCase(e *common.Env, id string, cfg caseCfg) {
 		wireObj(&srcWire, o, srcView.data)
 		nsrc++
 	}
+	for _, c := range calls {
+		if c.kind != 'X' {
+			continue
+		}
+		listed := false
+		for _, r := range all {
+			if r == c.ref {
+				listed = true
+			}
+		}
+		if !listed {
+			fmt.Fprintf(&srcWire, " %d g", uint64(c.ref))
+			wireObj(&srcWire, c.marker, nil)
+			nsrc++
+		}
+	}
 	fmt.Fprintf(&ks, "%s.k K %d%s", id, nsrc, srcWire.String())
 	ntgt := 0
 	var tgtWire strings.Builder
@@ -1417,6 +1453,12 @@ type fixedCase struct {
 	name   string
 	bodies []string // objects 3.. of a hand-written file
 	calls  []callSpec
+	gens   map[uint32]uint16 // objects whose generation is not 0
+}
+
+func rcallg(n uint32, gen uint16) callSpec { return callSpec{kind: 'R', ref: pdf.NewReference(n, gen)} }
+func xcallg(n uint32, gen uint16, m int) callSpec {
+	return callSpec{kind: 'X', ref: pdf.NewReference(n, gen), marker: pdf.Integer(m)}
 }
 
 func rcall(n uint32) callSpec { return callSpec{kind: 'R', ref: pdf.NewReference(n, 0)} }
@@ -1426,31 +1468,41 @@ func xcall(n uint32, m int) callSpec {
 
 var corpus = []fixedCase{
 	// F2: empty arrays; F3: null entries; F15: alias chains and sharing
-	{"empty-array", []string{"[[] 0]", "<< /E [] /D << >> >>"}, []callSpec{rcall(3), rcall(4)}},
-	{"null-entry", []string{"<< /A null /B [null 1 null] >>"}, []callSpec{rcall(3)}},
-	{"direct-null-entry", []string{"1"}, []callSpec{{kind: 'C', obj: pdf.Dict{"A": nil, "B": pdf.Array{nil, pdf.Array{}, pdf.Dict{}}}}}},
-	{"alias-sharing", []string{"[4 0 R 5 0 R 4 0 R 6 0 R 7 0 R]", "5 0 R", "<< /T /S /Length 11 >>\nstream\nstream data\nendstream", "4 0 R", "<< /Me 7 0 R /A 6 0 R >>"}, []callSpec{rcall(3)}},
-	{"alias-then-direct", []string{"4 0 R", "<< /T /S >>"}, []callSpec{rcall(3), rcall(4), rcall(3)}},
-	{"direct-then-alias", []string{"4 0 R", "<< /T /S >>"}, []callSpec{rcall(4), rcall(3)}},
-	{"alias-cycle", []string{"[4 0 R 5 0 R 6 0 R]", "5 0 R", "4 0 R", "6 0 R"}, []callSpec{rcall(3), rcall(4)}},
-	{"dangling", []string{"[9 0 R 9 0 R 10 0 R << /K 9 0 R >>]"}, []callSpec{rcall(3), rcall(9)}},
-	{"indirect-stream-keys", []string{"<< /Length 4 0 R /Filter 5 0 R /DecodeParms 7 0 R >>\nstream\n68656c6c6f>\nendstream", "11", "[6 0 R]", "/ASCIIHexDecode", "[8 0 R]", "<< /X 3 0 R >>"}, []callSpec{rcall(3)}},
-	{"filter-cycle", []string{"<< /Filter 4 0 R /Length 3 >>\nstream\nabc\nendstream", "4 0 R"}, []callSpec{rcall(3)}},
+	{"empty-array", []string{"[[] 0]", "<< /E [] /D << >> >>"}, []callSpec{rcall(3), rcall(4)}, nil},
+	{"null-entry", []string{"<< /A null /B [null 1 null] >>"}, []callSpec{rcall(3)}, nil},
+	{"direct-null-entry", []string{"1"}, []callSpec{{kind: 'C', obj: pdf.Dict{"A": nil, "B": pdf.Array{nil, pdf.Array{}, pdf.Dict{}}}}}, nil},
+	{"alias-sharing", []string{"[4 0 R 5 0 R 4 0 R 6 0 R 7 0 R]", "5 0 R", "<< /T /S /Length 11 >>\nstream\nstream data\nendstream", "4 0 R", "<< /Me 7 0 R /A 6 0 R >>"}, []callSpec{rcall(3)}, nil},
+	{"alias-then-direct", []string{"4 0 R", "<< /T /S >>"}, []callSpec{rcall(3), rcall(4), rcall(3)}, nil},
+	{"direct-then-alias", []string{"4 0 R", "<< /T /S >>"}, []callSpec{rcall(4), rcall(3)}, nil},
+	{"alias-cycle", []string{"[4 0 R 5 0 R 6 0 R]", "5 0 R", "4 0 R", "6 0 R"}, []callSpec{rcall(3), rcall(4)}, nil},
+	{"dangling", []string{"[9 0 R 9 0 R 10 0 R << /K 9 0 R >>]"}, []callSpec{rcall(3), rcall(9)}, nil},
+	{"indirect-stream-keys", []string{"<< /Length 4 0 R /Filter 5 0 R /DecodeParms 7 0 R >>\nstream\n68656c6c6f>\nendstream", "11", "[6 0 R]", "/ASCIIHexDecode", "[8 0 R]", "<< /X 3 0 R >>"}, []callSpec{rcall(3)}, nil},
+	{"filter-cycle", []string{"<< /Filter 4 0 R /Length 3 >>\nstream\nabc\nendstream", "4 0 R"}, []callSpec{rcall(3)}, nil},
 	// F26: /Filter resolves to the stream itself, to another stream, to an array holding a stream
-	{"filter-self", []string{"<< /Filter 3 0 R /Length 3 >>\nstream\nabc\nendstream"}, []callSpec{rcall(3)}},
-	{"filter-stream", []string{"<< /DecodeParms 4 0 R /Length 3 >>\nstream\nabc\nendstream", "<< /Length 1 >>\nstream\nx\nendstream"}, []callSpec{rcall(3)}},
-	{"filter-elem-stream", []string{"<< /Filter [4 0 R] /Length 3 >>\nstream\nabc\nendstream", "<< /Filter [3 0 R] /Length 1 >>\nstream\nx\nendstream"}, []callSpec{rcall(3), rcall(4)}},
+	{"filter-self", []string{"<< /Filter 3 0 R /Length 3 >>\nstream\nabc\nendstream"}, []callSpec{rcall(3)}, nil},
+	{"filter-stream", []string{"<< /DecodeParms 4 0 R /Length 3 >>\nstream\nabc\nendstream", "<< /Length 1 >>\nstream\nx\nendstream"}, []callSpec{rcall(3)}, nil},
+	{"filter-elem-stream", []string{"<< /Filter [4 0 R] /Length 3 >>\nstream\nabc\nendstream", "<< /Filter [3 0 R] /Length 1 >>\nstream\nx\nendstream"}, []callSpec{rcall(3), rcall(4)}, nil},
 	// a cycle entered through an alias of one of its members
-	{"alias-into-cycle", []string{"4 0 R", "<< /Kid 5 0 R >>", "<< /Parent 4 0 R /Up 3 0 R >>"}, []callSpec{rcall(3)}},
-	{"alias-into-self-cycle", []string{"4 0 R", "5 0 R", "[5 0 R 3 0 R 4 0 R]"}, []callSpec{rcall(3), rcall(5)}},
-	{"redirect", []string{"[4 0 R 5 0 R]", "5 0 R", "<< /K 3 0 R >>"}, []callSpec{xcall(5, 777), rcall(3), rcall(4)}},
+	{"alias-into-cycle", []string{"4 0 R", "<< /Kid 5 0 R >>", "<< /Parent 4 0 R /Up 3 0 R >>"}, []callSpec{rcall(3)}, nil},
+	// the same object number with different generations: different objects, all but one undefined
+	{name: "stale-gen-after-live", bodies: []string{"<< /A 4 0 R /B 4 1 R /C 4 65535 R >>", "<< /T /S >>"}, calls: []callSpec{rcall(3)}},
+	{name: "stale-gen-before-live", bodies: []string{"<< /A 4 1 R /B 4 0 R >>", "<< /Me 4 0 R /Old 4 1 R >>"}, calls: []callSpec{rcall(3)}},
+	{name: "stale-gen-calls", bodies: []string{"[4 0 R]", "<< /T /S >>"}, calls: []callSpec{rcallg(4, 1), rcall(4), rcall(3), rcallg(4, 1)}},
+	{name: "live-gen-2", bodies: []string{"<< /A 4 0 R /B 4 2 R >>", "<< /T /S /Up 3 0 R >>", "4 0 R", "4 2 R"},
+		calls: []callSpec{rcall(5), rcall(6), rcall(3)}, gens: map[uint32]uint16{4: 2}},
+	{name: "live-gen-2-first", bodies: []string{"<< /A 4 2 R /B 4 0 R >>", "<< /T /S >>"},
+		calls: []callSpec{rcall(3)}, gens: map[uint32]uint16{4: 2}},
+	{name: "redirect-stale-gen", bodies: []string{"[4 0 R 4 1 R]", "<< /T /S >>"}, calls: []callSpec{xcallg(4, 1, 777), rcall(3), rcall(4)}},
+	{name: "redirect-live-gen", bodies: []string{"[4 1 R 4 0 R]", "<< /T /S >>"}, calls: []callSpec{xcall(4, 777), rcall(3), rcallg(4, 1)}},
+	{"alias-into-self-cycle", []string{"4 0 R", "5 0 R", "[5 0 R 3 0 R 4 0 R]"}, []callSpec{rcall(3), rcall(5)}, nil},
+	{"redirect", []string{"[4 0 R 5 0 R]", "5 0 R", "<< /K 3 0 R >>"}, []callSpec{xcall(5, 777), rcall(3), rcall(4)}, nil},
 	// F27: Redirect of an alias, then a copy through a longer chain ending in the same object
-	{"redirect-of-alias", []string{"<< /T /S >>", "3 0 R", "4 0 R"}, []callSpec{xcall(4, 777), rcall(4), rcall(5), rcall(4)}},
+	{"redirect-of-alias", []string{"<< /T /S >>", "3 0 R", "4 0 R"}, []callSpec{xcall(4, 777), rcall(4), rcall(5), rcall(4)}, nil},
 }
 
 func runCorpus(e *common.Env) {
 	for ci, fc := range corpus {
-		h := &handFile{bodies: map[uint32]string{}, next: 3}
+		h := &handFile{bodies: map[uint32]string{}, gens: fc.gens, next: 3}
 		h.bodies[1] = "<< /Type /Catalog /Pages 2 0 R >>"
 		h.bodies[2] = "<< /Type /Pages /Kids [] /Count 0 >>"
 		for _, b := range fc.bodies {
@@ -1459,7 +1511,7 @@ func runCorpus(e *common.Env) {
 		data := h.bytes()
 		var all []pdf.Reference
 		for n := uint32(3); n < h.next+8; n++ {
-			all = append(all, pdf.NewReference(n, 0))
+			all = append(all, pdf.NewReference(n, fc.gens[n]))
 		}
 		for ti, tpw := range []string{"", "dst-secret"} {
 			id := fmt.Sprintf("k%d.%d", ci, ti)
